@@ -129,12 +129,8 @@ func genFrameOptions(p picker, s *scanSpec, flagSubset int) *frameExpect {
 					fe.IPFlags |= f.bit
 				}
 			}
-			if len(names) == 0 {
-				// an empty value keeps the command default? no: --ipflags "" means "no flags"
-				// is not expressible (empty string = option not given) - use a single flag instead
-				names = []string{"mf"}
-				fe.IPFlags = 1
-			}
+			// (no name drawn: `--ipflags ""` is the explicit empty flag set - the only way to send
+			// probes without DF, the default)
 			s.Extra = append(s.Extra, "--ipflags", strings.Join(names, ","))
 		}
 		if p.pct("ipproto", 15) {
